@@ -438,8 +438,10 @@ func (m *Monitors) checkAcceptance(n *Node, msg *Msg, pre Pre) {
 	if meta.H != pre.H {
 		return
 	}
-	if n.Interrupted {
-		return // an election / sync told this peer to leave its position while it was handling the message: not "a matching state" any more
+	if n.Interrupted || n.pendingTrig != nil || n.pendingSync != nil {
+		// an election / sync told this peer to leave its position (the main loop has cancelled the contexts; the worker half is still
+		// to come, or came during this very delivery): not "a matching state" any more
+		return
 	}
 	// guard: after an agreement violation peers may be on different chains; C11 does not apply then
 	sender := w.Nodes[msg.From]
